@@ -155,3 +155,16 @@ add("C10",
     "eq-foreign-nonstr-name and garbage-provides-exception-type. Old-style `__implemented__ = ...` assignments and arguments of the wrong kind (a non-interface as "
     "`provided`, a list as lookup1's single `required`) are outside the generated programs.",
     "Lean 4 proof (partial: twin equalities for comparison and adaptation) + direct C-vs-Python differential execution on all layers + odd-input programs", "6/C10")
+add("C11",
+    "PARTIAL. Proved: ZI.Own.check_sound (a lookup function accepted by the ownership check never reads or writes through a pointer to a freed object, for EVERY "
+    "behaviour of the environment at every callback point — other threads under the GIL or re-entrant code may clear and refill every cache field) and "
+    "ZI.Detach.check_sound (a function accepted by the fetch/callback/store check never stores an answer older than the live cache into it, whatever "
+    "invalidations happen during callbacks and whichever moment of a callback its answer reflects). The IR terms of _lookup, _lookupAll, _subscriptions, _verify "
+    "and the iteration mode of the loops run by changed() are REGENERATED from the current C / Python sources on every run (tools/cextract.py, fails closed) and "
+    "Lean decides the eight obligations. Runtime tie: seven re-entrancy scenarios x two flavours x up to seven entry points x both twins on the real code "
+    "(stray write via the dict free list, stale answer, leak, lazy required, mutating __providedBy__, re-entered changed()); thorough adds a thread stress.",
+    "stated_not_proved: C11_atomic at step granularity. Not modelled: preemption inside Python bytecode of the pure-Python twin finer than callbacks, free-threaded "
+    "builds, allocator behaviour beyond the dict free list, leaks invisible to reference counts. The translator's table of which C-API calls return borrowed / new "
+    "references and which may run Python code is trusted.",
+    "Lean 4 proof (soundness of two static checks) + translation of the C / Python sources into the checked IR each run + re-entrancy injection on the real code", "6/C11",
+    engine="lean4+translation")
